@@ -54,6 +54,9 @@ def q2(chk, repo):
     def only_compares(t):
         if t in (P0, P1) or t[0] == "const":
             return True
+        if t[0] == "poly":
+            # a difference of the two arguments inside a comparison (a < b is normalised to a - b < 0)
+            return all(all(a in (P0, P1) for a in mono) and len(mono) <= 1 for mono, c in t[1])
         if t[0] in ("cmp",):
             return only_compares(t[2]) and only_compares(t[3])
         if t[0] in ("and", "or"):
